@@ -31,6 +31,27 @@ func runC11(c *Ctx) {
 		return
 	}
 	persisted := []string{"root", "appendPath", "size"}
+	// ---- R14 positions come from the size. The hash → location index is not injective (two leaves,
+	// or a leaf and an inner node, may be equal after an Update); it answers "where is *a* node with
+	// this hash" for proof queries, which is all a query can ask. Nothing that *writes* the tree may
+	// take a position from it: Append computes the place of its append-path nodes from the size.
+	{
+		n := 0
+		for _, s := range p.CallersOf("(*trie/rmt.RegularMerkleTree).getLocation") {
+			if !IsProd(s.Fn) {
+				continue
+			}
+			n++
+			root := s.Fn
+			if kr := knownRootOf(s.Fn); kr != nil {
+				root = kr
+			}
+			okCaller := strings.HasSuffix(FuncKey(root), ".getIndexes")
+			c.Require("C11.R14 positions-from-the-size", FuncKey(root)+" ⇒ getLocation", p.InstrPos(s.Call), "only the by-hash proof query reads the hash → location index; writers of the tree compute positions", okCaller, "")
+		}
+		c.MinInstances("C11.R14 positions-from-the-size", n, 1)
+	}
+
 	// ---- R13 the pure calculators leave their inputs alone. AppendPath() hands out the tree's own
 	// slice (R5 keeps the tree from rewriting it in place); a calculator that is given that slice
 	// and stores into it — or into a re-slice of it that it then returns — rewrites the live tree's
